@@ -7,6 +7,7 @@ package shmipc
 import (
 	"bytes"
 	"fmt"
+	"os"
 	"strings"
 	"testing"
 	"time"
@@ -383,4 +384,82 @@ func TestVerifC11Sim(t *testing.T) {
 			"non-trivial = at least one pre-emptive switch; distinct by case hash",
 		assumptions: []string{"sequentially consistent execution at statement granularity", "no deadlines here (real timers are judged by the free-running part)"},
 		gen:         genC11Sim, run: func(c streamsCase, r *runCtx) { judgeC11Sim(c, runStreams(c, r), r) }})
+}
+
+// ---------- C14 (schedule part): session close / connection loss releases every blocked call ----------
+
+func genC14Sim(t *rapid.T) streamsCase {
+	c := streamsCase{Cfg: defaultSimCfg}
+	c.Cfg.QueueCap = 64
+	ns := rapid.IntRange(1, 2).Draw(t, "nstreams")
+	who := rapid.SampledFrom([]string{"client-session-close", "server-session-close"}).Draw(t, "who")
+	for i := 0; i < ns; i++ {
+		var st sStream
+		need := rapid.SampledFrom([]int{2, 10, 65}).Draw(t, "need")
+		st.C.Prog = []sOp{{K: "flush", N: 1}}
+		st.S.Prog = []sOp{{K: rapid.SampledFrom([]string{"readn", "readall"}).Draw(t, "rk"), N: need}}
+		if rapid.Bool().Draw(t, "creader") {
+			st.C.Prog = append(st.C.Prog, sOp{K: "readn", N: 3}) // the client blocks as well: nothing is ever sent back
+		}
+		c.Streams = append(c.Streams, st)
+	}
+	// the closer acts when every reader is blocked in its wait (an *active* call racing the teardown is known finding D20)
+	closer := []sOp{{K: "quiet"}, {K: "sclose"}}
+	if os.Getenv("VERIF_PROBE_D20") != "" {
+		closer = []sOp{{K: "yield"}, {K: "sclose"}}
+	}
+	if who == "client-session-close" {
+		c.Streams[0].C.Prog2 = closer
+	} else {
+		c.Streams[0].S.Prog2 = closer
+	}
+	c.Sched = genSchedPlanHot(t, 10, 1500, 3, 150)
+	return c
+}
+
+func judgeC14Sim(c streamsCase, h *streamsHist, r *runCtx) {
+	if h.res.Panic {
+		pat := false
+		for _, p := range []string{"linkedBuffer", "sliceList", "bufferSlice", "bufferList", "bufferManager", "pendingData", "sendQueue", "wakeUpPeer", "(*queue)"} {
+			if strings.Contains(h.res.Err, p) {
+				pat = true
+			}
+		}
+		if pat {
+			r.ViolSig("close-races-active-user", "a stream call that was active while the session was torn down crashed:\n%s", h.res.Err)
+			return
+		}
+	}
+	if h.viol != "" {
+		r.Violf("%s\nlast scheduling points: %v", h.viol, h.sc.Tail(30))
+		return
+	}
+	if b := h.blockedApps(); len(b) > 0 {
+		r.Violf("a session was closed and nothing is in flight, but application threads are still blocked inside stream calls: %v; %s\nlast scheduling points: %v", b, h.worldState(), h.sc.Tail(30))
+		return
+	}
+	if !h.w.client.IsClosed() || !h.w.server.IsClosed() {
+		r.Violf("one session was closed; at quiescence client closed=%v server closed=%v (the peer must notice the loss of the connection)", h.w.client.IsClosed(), h.w.server.IsClosed())
+		return
+	}
+	for i := range h.ends {
+		for e := 0; e < 2; e++ {
+			eh := h.ends[i][e]
+			if eh.readDone && eh.readErr == "" && len(eh.read) == 0 {
+				r.Violf("stream %d end %d: a read returned without data and without error after the session ended", h.ids[i], e)
+				return
+			}
+		}
+	}
+	if h.obs.preemptions > 0 {
+		r.NonTrivial()
+	}
+}
+
+func TestVerifC14Sim(t *testing.T) {
+	runCheck(t, checkDef[streamsCase]{name: "TestVerifC14Sim", replayTries: 5,
+		rule: "1-2 streams with readers blocked on both ends; Session.Close of the client or of the server once every reader waits; generated schedule over the teardown path (shutdown notification, event-loop lambda, connection loss seen by the peer); " +
+			"oracle at quiescence: no application thread is still blocked, both sessions are closed, no read returned empty-handed without an error; non-trivial = at least one pre-emptive switch; distinct by case hash",
+		assumptions: []string{"sequentially consistent execution at statement granularity", "known finding D20 (a call that is *active* while its session is torn down) is excluded by letting the closer act at quiescence; its probe is replayed on every run"},
+		gen:         genC14Sim, run: func(c streamsCase, r *runCtx) { judgeC14Sim(c, runStreams(c, r), r) }})
 }
